@@ -606,7 +606,7 @@ Proof.
     rewrite E in Hc. change (ts1 ++ t :: ts2) with (ts1 ++ [t] ++ ts2) in Hc.
     rewrite app_assoc, filter_app, lenZ_app in Hc.
     rewrite (filter_none _ (near (c_timeout c) t) ts2) in Hc.
-    + rewrite near_prefix in Hc by exact H1. cbn in Hc. unfold lenZ at 2 in Hc. cbn in Hc. lia.
+    + rewrite near_prefix in Hc by exact H1. change (lenZ (@nil Z)) with 0 in Hc. lia.
     + rewrite Forall_forall in *. intros y Hy. specialize (H2 y Hy). unfold near.
       assert (y <> t) by (intro; subst; contradiction).
       destruct (Z.leb_spec y t); [lia|reflexivity].
